@@ -706,10 +706,15 @@ func c11exec(c *h.Ctx, cs *h.Case) {
 	}
 	if slow {
 		// an op took a sizeable part of the grace period: timer and ops may have raced
+		// — the states are not compared with the model. What the oracle found stays unless it rests on the tree state
+		// around one call: a handler of a finished instance, a second constructor call, a listed node of a failed
+		// constructor, a tree missing under a listed instance or never released are wrong whenever the timer fires
 		cs.NoModel = true
 		cs.Trivial = true
 		cs.Outcome = "unscheduled"
-		cs.Oracle, cs.Sig, cs.Msg = "ok", "", ""
+		if cs.Sig == "repeated-done-changed-tree" {
+			cs.Oracle, cs.Sig, cs.Msg = "ok", "", ""
+		}
 		return
 	}
 	cs.Outcome = fmt.Sprintf("instances=%d handed=%d", len(tokens), handed)
